@@ -283,3 +283,71 @@ def java_skel_own(text):
             if call:
                 rows.append((call.group(1), parts[k]))
     return rows
+
+
+# ------------------------------------------------------------------ slot sequences (C02/C01/C03)
+# c_slot_kinds: 0 BI, 1 BO, 2 OI, 3 OO (by spelling; heuristic).  *_envelopes: raw kinds 0 buffer, 1 object
+
+def c_slot_kinds(body):
+    """ObjectArg a[] initialisers of a C / C++ stub body -> [(kind, text)]"""
+    m = re.search(r"ObjectArg a\[\] = \{(.*?)\n\s*\};", body, re.S)
+    if not m:
+        return []
+    out = []
+    for mm in re.finditer(r"\{\.(bi|b|o) = (.*?)\s*\},", m.group(1), re.S):
+        fld, rhs = mm.group(1), mm.group(2).strip()
+        if fld == "bi":
+            k = 0
+        elif fld == "b":
+            k = 0 if re.search(r"\{\s*&(\w+_val|i)\s*,", rhs) else 1
+        else:
+            k = 3 if re.match(r"(Object_NULL|\(Object\)\s*\{\s*NULL,\s*NULL\s*\})", rhs) else 2
+        out.append((k, rhs))
+    return out
+
+
+def c_stub_envelopes(text, ifaces, cpp=False):
+    """{(iface, method): (counts, [kinds])}"""
+    env = {}
+    for i in ifaces:
+        if cpp:
+            m = re.search(r"\nclass %s : public I%s, public ProxyBase \{(.*?)\n\};" % (re.escape(i), re.escape(i)), text, re.S)
+            funcs = {}
+            if m:
+                for mm in re.finditer(r"virtual int32_t (\w+)\(([^\n]*)\) \{\n(.*?)\n    \}", m.group(1), re.S):
+                    funcs[mm.group(1)] = mm.group(3)
+        else:
+            funcs = {k: v[1] for k, v in c_functions(text, i).items()}
+        for meth, body in funcs.items():
+            if meth in ("release", "retain"):
+                continue
+            inv = re.search(r"(?:Object_invoke\(self|invoke\()\s*,?\s*\w+, (\w+), (?:ObjectCounts_pack\(([^)]*)\)|0)\)", body)
+            if not inv:
+                continue
+            counts = tuple(int(x) for x in inv.group(2).split(",")) if inv.group(2) else (0, 0, 0, 0)
+            env[(i, meth)] = (counts, [0 if k < 2 else 1 for k, _ in c_slot_kinds(body)])
+    return env
+
+
+def rust_stub_envelopes(text, iface):
+    env = {}
+    m = re.search(r"\nimpl %s \{(.*?)\n\}\n" % re.escape(iface), text, re.S)
+    if not m:
+        return env
+    for mm in re.finditer(r"pub fn (r#\w+|\w+)\((.*?)\n    \}", m.group(1), re.S):
+        body = mm.group(2)
+        inv = re.search(r"\.invoke\(\s*(\d+),.*?pack_counts\(([^)]*)\)", body, re.S)
+        if not inv:
+            continue
+        counts = tuple(int(x) for x in inv.group(2).split(","))
+        kinds = []
+        am = re.search(r"let mut args = \[(.*?)\n        \];", body, re.S)
+        if am:
+            for a in re.split(r"\n            crate::object::Arg \{", "\n" + am.group(1))[1:]:
+                a = a.strip()
+                if a.startswith("bi:") or a.startswith("b:"):
+                    kinds.append(0)      # raw: buffer (the union field spelled is not observable)
+                elif a.startswith("o:"):
+                    kinds.append(1)      # raw: object
+        env[unraw(mm.group(1))] = (counts, kinds)
+    return env
